@@ -154,43 +154,64 @@ def rule_boolean(repo, rule):
             else:
                 rule.violation(where, fi.fq, norm(c), "unconstrained Boolean is not the zero-test result", "bool/%s" % fi.fq)
             continue
-        # Boolean-valued symbols of this method
-        boolsyms = {}
-        if fi.cls is not None and fi.cls.name == "LinCombBool":
-            boolsyms[fi.params[0]] = "self is a LinCombBool"
-        for a in ast.walk(fi.node):
-            if isinstance(a, ast.Assign) and isinstance(a.targets[0], ast.Name):
-                v = norm(a.value)
-                if v.endswith("_ensurebool(%s)" % norm(a.targets[0])) or "_ensurebool(" in v:
-                    # only counts if it dominates the site (same arm): the arm test is an isinstance on wires
-                    if _same_arm(a, c):
-                        boolsyms[norm(a.targets[0])] = "converted with _ensurebool"
-                if v in ("1 if %s else 0" % norm(a.targets[0]),):
-                    if _same_arm(a, c):
-                        boolsyms[norm(a.targets[0])] = "normalised to 0/1"
-        v = Valuer({k: P.sym(k) for k in boolsyms})
-        try:
-            p = v._p(arg)
-        except (Undecidable, NeedCase) as e:
-            rule.undecided(where, fi.fq, norm(c), "argument not interpretable: %s" % e)
-            continue
-        syms = sorted(p.symbols())
-        unknown = [s for s in syms if s not in boolsyms]
-        if unknown:
-            rule.violation(where, fi.fq, "%s = %s" % (norm(arg), p), "unconstrained Boolean built from `%s`, which is not known to be "
-                           "Boolean" % unknown[0], "bool/%s/%s" % (fi.fq, norm(arg)[:40]))
-            continue
-        bad = []
-        for vals in itertools.product((0, 1), repeat=len(syms)):
-            r = p.evaluate(dict(zip(syms, vals)))
-            if r not in (0, 1):
-                bad.append((dict(zip(syms, vals)), r))
-        term = "%s = %s over Boolean %s" % (norm(arg), p, syms)
-        if bad:
-            rule.violation(where, fi.fq, term + "; e.g. %s -> %s" % bad[0], "polynomial leaves {0,1} for Boolean operands, and no "
-                           "booleanity constraint is emitted", "bool/%s/%s" % (fi.fq, norm(arg)[:40]))
+        # Boolean-valued symbols, path by path: self (a LinCombBool), names bound to `_ensurebool(..)` results and names
+        # normalised by `1 if x else 0`; other single assignments are substituted
+        from ..hints import paths_to, Path
+        paths = paths_to(fi.node, c) or [Path()]
+        verdicts = []
+        for path in paths:
+            boolsyms = {}
+            if fi.cls is not None and fi.cls.name == "LinCombBool":
+                boolsyms[fi.params[0]] = "self is a LinCombBool"
+            env = {k: P.sym(k) for k in boolsyms}
+            for step in path.steps:
+                if step[0] != "assign":
+                    continue
+                nm, val = step[1], step[2]
+                vt = norm(val)
+                if "_ensurebool(" in vt and isinstance(val, (ast.Call, ast.Attribute)):
+                    boolsyms[nm] = "converted with _ensurebool"
+                    env[nm] = P.sym(nm)
+                elif isinstance(val, ast.IfExp) and norm(val.body) == "1" and norm(val.orelse) == "0":
+                    boolsyms[nm] = "normalised to 0/1"
+                    env[nm] = P.sym(nm)
+                else:
+                    try:
+                        env[nm] = Valuer(dict(env))._p(val)
+                    except (Undecidable, NeedCase):
+                        env.pop(nm, None)
+                        boolsyms.pop(nm, None)
+            try:
+                p = Valuer(dict(env))._p(arg)
+            except (Undecidable, NeedCase) as e:
+                verdicts.append(("undecided", "argument not interpretable: %s" % e, None))
+                continue
+            syms = sorted(p.symbols())
+            unknown = [s_ for s_ in syms if s_ not in boolsyms]
+            if unknown:
+                verdicts.append(("violation", "unconstrained Boolean built from `%s`, which is not known to be Boolean" % unknown[0],
+                                 "%s = %s" % (norm(arg), p)))
+                continue
+            bad = []
+            for vals in itertools.product((0, 1), repeat=len(syms)):
+                r = p.evaluate(dict(zip(syms, vals)))
+                if r not in (0, 1):
+                    bad.append((dict(zip(syms, vals)), r))
+            term = "%s = %s over Boolean %s" % (norm(arg), p, syms)
+            if bad:
+                verdicts.append(("violation", "polynomial leaves {0,1} for Boolean operands, and no booleanity constraint is emitted",
+                                 term + "; e.g. %s -> %s" % bad[0]))
+            else:
+                verdicts.append(("ok", "truth table stays in {0,1} (%d rows)" % (2 ** len(syms)), term))
+        key = "bool/%s/%s" % (fi.fq, norm(arg)[:40])
+        viol = [v for v in verdicts if v[0] == "violation"]
+        und = [v for v in verdicts if v[0] == "undecided"]
+        if viol:
+            rule.violation(where, fi.fq, viol[0][2], viol[0][1], key)
+        elif und:
+            rule.undecided(where, fi.fq, norm(c), und[0][1])
         else:
-            rule.ok(where, fi.fq, term, "truth table stays in {0,1} (%d rows)" % (2 ** len(syms)))
+            rule.ok(where, fi.fq, verdicts[0][2] + ("  [%d paths]" % len(verdicts) if len(verdicts) > 1 else ""), verdicts[0][1])
 
 
 def _same_arm(a, c):
@@ -412,24 +433,108 @@ def rule_gadgets(repo, rule):
         else:
             rule.violation(f.loc(arm[0]), f.fq, norm(body)[:100], "secret/secret bitwise operator is not decompose, combine per bit, "
                            "recompose", "bitwise/%s/shape" % name)
-    # ------------------------------------------------------------ selection
+    rule_selection(repo, rule)
+
+
+def _gate_poly(n, env):
+    """polynomial of an expression built from + - * and the Boolean gates & | ^ ~ (a&b = ab, a|b = a+b-ab, a^b = a+b-2ab,
+    ~a = 1-a); None if something else occurs"""
+    if isinstance(n, ast.Name) and n.id in env:
+        return env[n.id]
+    if isinstance(n, ast.Attribute) and n.attr == "lc":
+        return _gate_poly(n.value, env)
+    if isinstance(n, ast.Constant) and isinstance(n.value, int):
+        return P.const(int(n.value))
+    if isinstance(n, ast.UnaryOp):
+        v = _gate_poly(n.operand, env)
+        if v is None:
+            return None
+        if isinstance(n.op, ast.USub):
+            return -v
+        if isinstance(n.op, ast.Invert):
+            return P.const(1) - v
+        return None
+    if isinstance(n, ast.BinOp):
+        l, r = _gate_poly(n.left, env), _gate_poly(n.right, env)
+        if l is None or r is None:
+            return None
+        if isinstance(n.op, ast.Add):
+            return l + r
+        if isinstance(n.op, ast.Sub):
+            return l - r
+        if isinstance(n.op, ast.Mult):
+            return l * r
+        if isinstance(n.op, ast.BitAnd):
+            return l * r
+        if isinstance(n.op, ast.BitOr):
+            return l + r - l * r
+        if isinstance(n.op, ast.BitXor):
+            return l + r - P.const(2) * l * r
+        return None
+    if isinstance(n, ast.Call) and norm(n.func).split(".")[-1] in ("LinCombBool", "_ensurefxp", "_ensurebool", "_ensurelc") and n.args:
+        return _gate_poly(n.args[0], env)
+    return None
+
+
+def rule_selection(repo, rule):
+    """if_then_else: a secret condition is Boolean-typed before it selects, and EVERY value returned for a secret
+    condition is select(c, t, f) = f + c*(t - f): as a polynomial, or - where both alternatives are Boolean-typed and
+    the result is built from logic gates - on all of {0,1}^3."""
+    from ..hints import paths_to
     ite = repo.fn("pysnark.branching", "if_then_else")
     c_, t_, f_ = ite.params
     guard = [s for s in ite.node.body if isinstance(s, ast.If) and norm(s.test) == "not isinstance(%s, LinCombBool)" % c_
              and any(isinstance(b, ast.Raise) for b in s.body)]
-    rets = [n for n in ite.node.body if isinstance(n, ast.Return)]
-    final = rets[-1] if rets else None
-    p = poly_of(final.value, {c_: P.sym("c"), t_: P.sym("t"), f_: P.sym("f")}, strict=True) if final is not None else None
-    if guard and final is not None and ite.node.body.index(guard[0]) < ite.node.body.index(final):
+    rets = [n for n in ast.walk(ite.node) if isinstance(n, ast.Return) and n.value is not None and not any(
+        isinstance(p_, (ast.FunctionDef, ast.Lambda)) and p_ is not ite.node for p_ in parents(n))]
+    if guard and rets:
         rule.ok(ite.loc(guard[0]), ite.fq, norm(guard[0].test), "a secret condition must be Boolean-typed before it selects")
     else:
         rule.violation(ite.loc(), ite.fq, "no LinCombBool type check before the selection", "selection accepts a condition that is not "
                        "constrained Boolean: cond = 2 selects 2*t - f", "select/type")
-    if p is not None and p == P.sym("f") + P.sym("c") * (P.sym("t") - P.sym("f")):
-        rule.ok(ite.loc(final), ite.fq, norm(final.value), "f + c*(t - f): t when c = 1, f when c = 0")
-    else:
-        rule.violation(ite.loc(final) if final else ite.loc(), ite.fq, "%s = %s" % (norm(final.value) if final else "", p),
-                       "selection formula is not false + cond*(true - false)", "select/formula")
+    gline = guard[0].lineno if guard else 0
+    env = {c_: P.sym("c"), t_: P.sym("t"), f_: P.sym("f")}
+    want = P.sym("f") + P.sym("c") * (P.sym("t") - P.sym("f"))
+    n_sel = 0
+    for r in rets:
+        if r.lineno < gline:
+            continue          # public condition / identical alternatives: decided before the type check
+        v = r.value
+        if isinstance(v, ast.ListComp) and isinstance(v.elt, ast.Call) and norm(v.elt.func).endswith("if_then_else") \
+                and len(v.elt.args) == 3 and norm(v.elt.args[0]) == c_ and "zip(%s, %s)" % (t_, f_) in norm(v.generators[0].iter).replace(",", ", ").replace("  ", " "):
+            rule.ok(ite.loc(r), ite.fq, norm(v)[:90], "element-wise selection over the two lists")
+            continue
+        # local re-bindings on the way (falsev = _ensurefxp(falsev)) keep the operand's value
+        e2 = dict(env)
+        for path in paths_to(ite.node, r)[:1]:
+            for nm, val in path.assigns:
+                gp = _gate_poly(val, e2)
+                if gp is not None:
+                    e2[nm] = gp
+        p = _gate_poly(v, e2)
+        n_sel += 1
+        uses_gates = any(isinstance(x, ast.BinOp) and isinstance(x.op, (ast.BitAnd, ast.BitOr, ast.BitXor)) or
+                         isinstance(x, ast.UnaryOp) and isinstance(x.op, ast.Invert) for x in ast.walk(v))
+        if p is None:
+            rule.undecided(ite.loc(r), ite.fq, norm(v)[:100], "selection value not interpretable")
+        elif p == want:
+            rule.ok(ite.loc(r), ite.fq, norm(v), "f + c*(t - f): t when c = 1, f when c = 0")
+        elif uses_gates and p.symbols() <= {"c", "t", "f"}:
+            rows = [(c, t, f) for c in (0, 1) for t in (0, 1) for f in (0, 1)]
+            bad = [(c, t, f, int(p.evaluate({"c": c, "t": t, "f": f}))) for c, t, f in rows
+                   if p.evaluate({"c": c, "t": t, "f": f}) != (t if c else f)]
+            if bad:
+                c, t, f, got = bad[0]
+                rule.violation(ite.loc(r), ite.fq, "%s = %s" % (norm(v), p), "Boolean selection has the wrong truth table: for cond=%d, "
+                               "true=%d, false=%d it yields %d instead of %d" % (c, t, f, got, t if c else f), "select/formula")
+            else:
+                rule.ok(ite.loc(r), ite.fq, norm(v), "logic-gate selection with the truth table of select on {0,1}^3")
+        else:
+            rule.violation(ite.loc(r), ite.fq, "%s = %s" % (norm(v), p), "selection formula is not false + cond*(true - false)",
+                           "select/formula")
+    if n_sel == 0:
+        rule.violation(ite.loc(), ite.fq, "no selection value after the type check", "if_then_else never selects for a secret condition",
+                       "select/none")
 
 
 def check(repo, rep, tier):
@@ -443,7 +548,7 @@ def check(repo, rep, tier):
                        "set: solver family); decided here only through the per-gadget obligation lists"]
     r1 = rep.rule("R-C02-1", "no dangling witness", floor=12)
     rule_dangling(repo, r1)
-    r2 = rep.rule("R-C02-2", "unconstrained Boolean constructions are Boolean-closed polynomials", floor=8)
+    r2 = rep.rule("R-C02-2", "unconstrained Boolean constructions are Boolean-closed polynomials", floor=5)
     rule_boolean(repo, r2)
     r3 = rep.rule("R-C02-3", "gadget obligations", floor=20)
     rule_gadgets(repo, r3)
